@@ -625,7 +625,7 @@ Definition m_osc : model :=
         [Bin Sub (Sym 1%positive) (Sym 2%positive); Bin Sub (Sym 2%positive) (Sym 1%positive);
          Bin Sub (Sym 3%positive) (Bin Add (Const 1) (Sym 1%positive))] [] [] [] false false.
 Definition o_elim12 : options :=
-  Options false false false false false (Some [1; 2]%positive) true false true false.
+  Options false false false false false (Some [1; 2]%positive) true false true false [].
 
 Lemma osc_not_closed :
   let m' := simplify o_elim12 m_osc in
@@ -643,7 +643,7 @@ Definition r_ex : env := fun x =>
   match x with 1%positive => Q2Qc 5 | 2%positive => Q2Qc 5 | 3%positive => - Q2Qc 5
           | 4%positive => Q2Qc 2 | 5%positive => Q2Qc 3 | _ => 0 end.
 Definition o_ex : options :=
-  Options false false true true true (Some [2%positive]) true true true false.
+  Options false false true true true (Some [2%positive]) true true true false [].
 
 Lemma ex_sat : sat r_ex m_ex.
 Proof. constructor; simpl; repeat constructor; simpl; apply Qc_is_canon; reflexivity. Qed.
